@@ -783,10 +783,33 @@ func (e *wireExec) mkReq(src, ml, cut, endk, extra string) (*reqParams, bool) {
 	return rp, true
 }
 
+// wrongPositiveML: the meta-len header is a positive int (as strconv.Atoi reads it) other than the
+// length of the header.
+func (rp *reqParams) wrongPositiveML() (int, bool) {
+	if !rp.mlPresent {
+		return 0, false
+	}
+	n, err := strconv.Atoi(rp.mlVal)
+	return n, err == nil && n > 0 && n != len(rp.hdr)
+}
+
 // oracleRequest evaluates C13 on what the real server did with one request.
 func (e *wireExec) oracleRequest(op string, rp *reqParams, status string, g *wGK, sepHdr string) {
 	if status == "hang" {
 		e.fail("header-hang: %s: the request was never answered", op)
+		return
+	}
+	// Props/C13 metalen_mismatch_refused / metalen_oversized_refused / header_cut_refused (S11, repaired
+	// by `fix: NewDecoder accepted a metadata length larger than the metadata`): a positive
+	// X-STS-MetaLen that is not the length of the header is refused before Prepare — 500, no
+	// gatekeeper call — whatever the body.
+	if n, wrong := rp.wrongPositiveML(); wrong {
+		if g.preps > 0 || len(g.recvs) > 0 || status == "200" || strings.HasPrefix(status, "206") {
+			e.fail("metalen-accepted: %s: X-STS-MetaLen %d for a header of %d bytes was answered %s after %d Prepare and %d Receive calls, expected a refusal without effect",
+				op, n, len(rp.hdr), status, g.preps, len(g.recvs))
+		} else if hasBody := rp.gz >= 0 || len(rp.data) > 0 || rp.broken; hasBody && !rp.cutCompressed && status != "500" {
+			e.fail("metalen-accepted: %s: X-STS-MetaLen %d for a header of %d bytes was answered %s, expected 500", op, n, len(rp.hdr), status)
+		}
 		return
 	}
 	// Props/C13 unsafe_name_refused: a part whose converted name, raw rename target or converted
@@ -1123,6 +1146,9 @@ func (e *wireExec) Do(op []string) string {
 			return "hang"
 		}
 		e.mainOps++
+		if _, wrong := rp.wrongPositiveML(); wrong {
+			e.fail("metalen-accepted: decx: NewDecoder(%d) returned no error for a header of %d bytes (body %d bytes)", n, len(rp.hdr), len(rp.data))
+		}
 		parts := dec.GetParts()
 		slices := e.slicesOf(rp.src)
 		srcOk := e.srcOk(rp.src)
@@ -1555,11 +1581,17 @@ func (wireComp) Corpus() [][]string {
 		{wPartLine("", "", "", "h", 1, 2, 9, 0, 3, 9, 1), "put stub / -1 x -1 c 0 0 real", "put stub - -1 x -1 c 0 0 real", "http stub 0"},
 		{wPartLine("a", "/abs", "", "h", 1, 2, 9, 0, 3, 9, 1), "put stub / -1 x -1 c 0 0 real", "http stub 2"},
 		{wPartLine("a/../b", "", "./.", "h", 1, 2, 9, 0, 3, 9, 1), "put stub / -1 x -1 c 0 0 real", "put stub - -1 x -1 c 0 0 real", `put stub %5c -1 x -1 c 0 0 real`},
-		// S11 (known finding): meta-len <= 0 or larger than the header
+		// meta-len <= 0: the whole body is taken as header (206 with count 0 since the Receive repair)
 		with(two, "put stage / -1 a0 -1 c 0 0 real", "put stub / -1 a0 -1 c 0 0 real", "put stage / -1 a-5 -1 c 0 0 real",
 			"decx / a0 -1 c 0 real 0 4"),
+		// S11 (repaired by `fix: NewDecoder accepted a metadata length larger than the metadata`): meta-len
+		// larger than the header shifted every part (206 with count 1, 200 with two trailing bytes); the
+		// first three ops of the second line are the recorded witness
 		with(two, "put stage / -1 d2 -1 c 0 0 real", "put stage / -1 d2 -1 c 2 0 real", "decx / d2 -1 c 2 real 0 4",
-			"put stage / -1 d500 -1 c 0 0 real"),
+			"put stage / -1 d500 -1 c 0 0 real", "put stub / -1 d1 -1 c 0 0 real", "put stage / 6 d2 -1 c 2 0 real",
+			"decx / d2 -1 c 2 real 1 4", "decx / d1 -1 c 0 real 3 2 5", "put stub / 0 a9223372036854775807 -1 b 0 0 real",
+			"put stage / -1 d7 -1 c 9 1 real", "decx / d7 145 b 0 real 0 4", "put stage / -1 d7 145 c 0 0 real",
+			"put stub / -1 s%2b141 -1 c 0 0 real", "put stub / -1 s0141 -1 c 0 0 real", "put stub / -1 s0143 -1 c 0 0 real"),
 		// compressed stream cut short
 		with(two, "putgz 6 1 2", "putgz 1 9 10", "putgz 0 99 100", "putgz 9 1 1"),
 	}
@@ -1791,8 +1823,12 @@ func (wireComp) Generate(r *Rand, tier string, n int) [][]string {
 				case 2:
 					cut = r.Intn(full + 1)
 					endk = "b"
-				case 3: // wrong meta-len
-					ml = []string{"d1", "d-1", "d2", "d-2", "d7", "a0", "a-1", "a-9999", "a1", "a2", "d100", "d100000", "a9223372036854775807"}[r.Intn(13)]
+				case 3: // wrong meta-len: oversized (by little, by the whole body, by far), undersized, non-positive
+					ml = []string{"d1", "d-1", "d2", "d-2", "d7", "a0", "a-1", "a-9999", "a1", "a2", "d100", "d100000", "a9223372036854775807",
+						fmt.Sprintf("d%d", r.Range(1, g.total+3)), fmt.Sprintf("d%d", g.total), fmt.Sprintf("d-%d", r.Range(1, g.hlen-1)), "d3", "d1"}[r.Intn(18)]
+					if r.Chance(0.3) {
+						cut = r.Intn(full + 1)
+					}
 				case 4:
 					ml = []string{"n", "sabc", "s1.5", "s0x10", "s1e3", "s--1", "s+", "s-", "s1_0", "s99999999999999999999", "s%2b" + strconv.Itoa(g.hlen), "s0" + strconv.Itoa(g.hlen)}[r.Intn(12)]
 				case 5:
@@ -1807,15 +1843,18 @@ func (wireComp) Generate(r *Rand, tier string, n int) [][]string {
 					extra = r.Range(0, 3)
 				}
 				gz := r.Range(-1, 9)
-				if ml != "x" {
-					// with a wrong meta-len the header copier of NewDecoder and the part readers share the
-					// stream; only a plain small body is read by the copier in one piece (deterministic)
+				chunk := []int{0, 0, 1, 2, 7, 64}[r.Intn(6)]
+				if strings.HasPrefix(ml, "a0") || strings.HasPrefix(ml, "a-") {
+					// with a meta-len <= 0 the header copier of NewDecoder and the part readers share the
+					// stream; only a plain small body is read by the copier in one piece (deterministic).
+					// (With a positive meta-len NewDecoder waits for its copier since the S11 repair.)
 					gz = -1
+					chunk = 0
 				}
 				if r.Chance(0.5) {
 					ops = append(ops, fmt.Sprintf("put %s %s %d %s %d %s %d %d real", gk, escSep(sep), gz, ml, cut, endk, extra, xr))
 				} else if !strings.HasPrefix(ml, "s") && ml != "n" {
-					ops = append(ops, fmt.Sprintf("decx %s %s %d %s %d real 0 %s", escSep(sep), ml, cut, endk, extra, wSizes(r, true)))
+					ops = append(ops, fmt.Sprintf("decx %s %s %d %s %d real %d %s", escSep(sep), ml, cut, endk, extra, chunk, wSizes(r, true)))
 				} else {
 					ops = append(ops, fmt.Sprintf("put %s %s -1 %s %d %s %d %d real", gk, escSep(sep), ml, cut, endk, extra, xr))
 				}
